@@ -70,6 +70,20 @@ def strip_lean_comments(src: str) -> str:
     return "".join(out)
 
 
+def theorem_statements(src):
+    """{theorem name: sha256 of its statement} — the text from `theorem` up to the first `:=`,
+    whitespace-normalised, comments stripped."""
+    src = strip_lean_comments(src)
+    out = {}
+    for m in re.finditer(r"^\s*theorem\s+([A-Za-z0-9_.']+)", src, flags=re.M):
+        rest = src[m.end():]
+        k = rest.find(":=")
+        stmt = rest if k < 0 else rest[:k]
+        stmt = " ".join(stmt.split())
+        out[m.group(1)] = hashlib.sha256(stmt.encode()).hexdigest()[:16]
+    return out
+
+
 class Ctx:
     def __init__(self, prop, tier, seed, replay=None):
         self.prop = prop
@@ -180,6 +194,25 @@ class Ctx:
             with open(path) as f:
                 src = strip_lean_comments(f.read())
             thms += re.findall(r"^\s*theorem\s+([A-Za-z0-9_.']+)", src, flags=re.M)
+        # pinned statements: a theorem that disappeared or whose statement changed since the lock
+        # was written (tools_lock_theorems.py) is a broken obligation
+        lock_path = os.path.join(self.lean_dir, "theorems.lock.json")
+        if os.path.exists(lock_path):
+            with open(lock_path) as f:
+                locked = json.load(f).get(self.prop, {})
+            current = {}
+            for m in (theorems_from or modules):
+                path = os.path.join(self.lean_dir, m.replace(".", "/") + ".lean")
+                with open(path) as f:
+                    current.update(theorem_statements(f.read()))
+            for name, h in locked.items():
+                if name not in current:
+                    self.broken("lean-audit:theorem-missing:" + name, "theorem %s is pinned in theorems.lock.json but no longer in the property file" % name)
+                    all_ok = False
+                elif current[name] != h:
+                    self.broken("lean-audit:theorem-statement-changed:" + name, "the statement of %s differs from the pinned one" % name)
+                    all_ok = False
+            self.coverage["pinned_theorems"] = len(locked)
         propdir = os.path.join(self.lean_dir, "Holpy", self.prop)
         bad = []
         for root, _, files in os.walk(propdir):
